@@ -116,6 +116,9 @@ pub struct Program {
     /// (name tokens, value tokens): the name is passed to the real code as the concatenated spellings
     api: Vec<(Vec<Tok>, Vec<Tok>)>,
     files: Vec<File>,
+    /// request `C12.hof`: a program of the higher-order family, on which RSSL is expected to equal C exactly; any
+    /// difference fails with a key of its own, whether or not a known deviation would reproduce it
+    strict: bool,
 }
 
 fn enc_line(l: &Line) -> String {
@@ -163,7 +166,7 @@ impl Program {
                 .collect::<Vec<_>>()
                 .join("|")
         };
-        let mut f = vec!["C12.run".to_string(), api];
+        let mut f = vec![if self.strict { "C12.hof".to_string() } else { "C12.run".to_string() }, api];
         for file in &self.files {
             let mut parts = vec![if file.real == file.name {
                 file.name.clone()
@@ -178,9 +181,10 @@ impl Program {
 
     fn decode(req: &str) -> Option<Program> {
         let f: Vec<&str> = req.split('\t').collect();
-        if f.len() < 3 || (f[0] != "C12.run" && f[0] != "C12.limit") {
+        if f.len() < 3 || (f[0] != "C12.run" && f[0] != "C12.limit" && f[0] != "C12.hof") {
             return None;
         }
+        let strict = f[0] == "C12.hof";
         let mut api = Vec::new();
         if f[1] != "-" {
             for e in f[1].split('|') {
@@ -214,7 +218,7 @@ impl Program {
                 lines,
             });
         }
-        Some(Program { api, files })
+        Some(Program { api, files, strict })
     }
 
     fn render_file(file: &File) -> String {
@@ -517,7 +521,7 @@ enum RefErr {
 
 /// the places where RSSL is known to deviate from C; used only to *classify* a disagreement: a disagreement
 /// is attributed to a set of deviations only if the reference with exactly those switched on reproduces the
-/// real output
+/// real output (`judge_with`: exact mimicry, no other way of recognising a class)
 #[derive(Clone, Copy, Default, PartialEq, Debug)]
 struct Dev {
     /// a function-like macro name followed by a line end before `(` is not an invocation
@@ -549,6 +553,11 @@ struct Dev {
     /// C compilers do the same (clang cites C99 5.1.1.2p4, GCC stops its look-ahead at the end of a buffer); the
     /// property's wording, "equivalent to pasting the file's contents", does not
     blocks_at_file_boundary: bool,
+    /// a replacement list is rescanned on its own: an argument list that begins in it must end in it (`#define F(X) X +`,
+    /// `#define G F(1`; `G) 2`: C reads `F(1)` across the end of `G`'s replacement list, RSSL reports
+    /// `MacroArgumentsNeverEnd`).  Found when the shrinker of this harness dropped a `)` from a replacement list; the
+    /// generators keep the parentheses of a replacement list balanced, so only the corpus exercises it
+    args_end_in_list: bool,
 }
 
 const DEV_NAMES: &[&str] = &[
@@ -562,7 +571,22 @@ const DEV_NAMES: &[&str] = &[
     "painted-function-name-reinvoked",
     "function-name-before-vanished-macro-invoked",
     "invocation-spans-file-boundary",
+    "argument-list-ends-behind-replacement-list",
 ];
+
+/// the deviation switches that are offered as explanations of a disagreement.  `paste-in-api-define` (4) and
+/// `duplicate-api-define` (32) were fixed in 9f7cdb8, `line-end-before-parenthesis` (1) in f08088c,
+/// `pragma-once-by-include-name` (64) in d66a6d7: not offered any more (a regression shows up as `unexplained`)
+const OFFERED: u32 = ((1 << DEV_NAMES.len()) - 1) & !(1 | 4 | 32 | 64);
+
+/// does a run of the reference reproduce the real outcome?  Token for token; a rejection is reproduced by a rejection
+fn same_outcome(real: &Real, alt: &Result<Vec<String>, RefErr>) -> bool {
+    match (real, alt) {
+        (Real::Ok(t), Ok(e)) => t == e,
+        (Real::Err(_), Err(_)) => true,
+        _ => false,
+    }
+}
 
 impl Dev {
     fn from_bits(b: u32) -> Dev {
@@ -577,6 +601,7 @@ impl Dev {
             reinvoke_painted: b & 128 != 0,
             reinvoke_deferred: b & 256 != 0,
             blocks_at_file_boundary: b & 512 != 0,
+            args_end_in_list: b & 1024 != 0,
         }
     }
     fn names(b: u32) -> String {
@@ -716,14 +741,61 @@ impl<'a> Reference<'a> {
 
     /// Prosser's `expand`
     fn expand(&mut self, mut ts: Vec<RTok>) -> Result<Vec<RTok>, RefErr> {
-        let mut out = Vec::new();
+        let mut out: Vec<RTok> = Vec::new();
         // `ts` is kept reversed so that the head is popped cheaply
         ts.reverse();
-        let markers = self.dev.reinvoke_painted || self.dev.reinvoke_deferred;
+        let markers =
+            self.dev.reinvoke_painted || self.dev.reinvoke_deferred || self.dev.no_placemarker || self.dev.args_end_in_list;
         while let Some(t) = ts.pop() {
             self.tick()?;
             let name = match &t.k {
                 RK::Id(n) => n.clone(),
+                RK::Paste => {
+                    // RSSL mimicry (`no_placemarker` only: `subst` left the `##` of this replacement list in place): the
+                    // paste is carried out while the replacement list is rescanned, on whatever stands next to the `##`
+                    // by then -- everything to its left has been expanded already (`find_single_macro` reports the
+                    // first operation from the left).  The operands are looked for inside the replacement list only.
+                    let start = ts
+                        .iter()
+                        .rev()
+                        .find_map(|x| if let RK::RegionEnd(_, s) = &x.k { Some(*s) } else { None })
+                        .unwrap_or(0);
+                    let mut l = out.len();
+                    let mut left = None;
+                    while l > start {
+                        l -= 1;
+                        if out[l].k != RK::Nl {
+                            left = Some(l);
+                            break;
+                        }
+                    }
+                    let l = match left {
+                        Some(l) => l,
+                        None => return Err(RefErr::PasteAtEdge), // ConcatMissingLeftToken
+                    };
+                    let mut j = ts.len();
+                    let mut right = None;
+                    while j > 0 {
+                        match ts[j - 1].k {
+                            RK::Nl => j -= 1,
+                            RK::RegionEnd(..) => break,
+                            _ => {
+                                right = Some(j - 1);
+                                break;
+                            }
+                        }
+                    }
+                    let r = match right {
+                        Some(r) => r,
+                        None => return Err(RefErr::PasteAtEdge), // ConcatMissingRightToken
+                    };
+                    let merged = self.paste(&out[l], &ts[r])?;
+                    ts.truncate(r);
+                    out.truncate(l);
+                    // the merged token is read again, with the macros disabled that are disabled for this replacement list
+                    ts.push(RTok { k: merged.k, hs: t.hs.clone() });
+                    continue;
+                }
                 RK::RegionEnd(last_fn, start) => {
                     // RSSL mimicry: the replacement list of an invocation has been expanded completely.  If tokens
                     // remain in the enclosing list (the next entry is not another end marker), RSSL looks at the
@@ -821,7 +893,12 @@ impl<'a> Reference<'a> {
                             None => return Err(RefErr::Unterminated),
                         };
                         match a.k {
-                            RK::RegionEnd(..) => {}
+                            RK::RegionEnd(..) => {
+                                // the end of a replacement list that holds the `(`: RSSL scans that list on its own
+                                if self.dev.args_end_in_list {
+                                    return Err(RefErr::Unterminated);
+                                }
+                            }
                             RK::LParen => {
                                 depth += 1;
                                 args.last_mut().unwrap().push(a);
@@ -885,6 +962,7 @@ impl<'a> Reference<'a> {
             }
         }
         // phase 1: parameter replacement
+        let mut needs_placemarker = false;
         let mut seq: Vec<RTok> = Vec::new();
         let n = m.body.len();
         for (i, k) in m.body.iter().enumerate() {
@@ -898,6 +976,7 @@ impl<'a> Reference<'a> {
                     let real: Vec<RTok> = raw.into_iter().filter(|a| a.k != RK::Nl || self.dev.newline_blocks_call).collect();
                     if real.iter().all(|a| a.k == RK::Nl) {
                         self.notes.used_placemarker = true;
+                        needs_placemarker = true;
                         if !self.dev.no_placemarker {
                             seq.push(RTok { k: RK::Placemarker, hs: empty.clone() });
                         }
@@ -919,9 +998,12 @@ impl<'a> Reference<'a> {
                 seq.push(RTok { k: k.clone(), hs: empty.clone() });
             }
         }
+        // RSSL mimicry: where C needs a placemarker RSSL has nothing to paste with, and it does not paste before the
+        // rescan either: the `##` stays in the list and is carried out by `expand` (on this instance of the list only)
+        let deferred = self.dev.no_placemarker && needs_placemarker;
         // phase 2: pastes, left to right
         let mut i = 0;
-        while i < seq.len() {
+        while !deferred && i < seq.len() {
             if seq[i].k != RK::Paste {
                 i += 1;
                 continue;
@@ -1648,9 +1730,290 @@ fn generate(rng: &mut Rng, hist: &mut Hist) -> Vec<Program> {
         lines.extend(fs[0].lines.clone());
         fs[0].lines = lines;
         g.hist.add(&format!("api-defines:{}", api.len()));
-        variants.push(Program { api, files: fs });
+        variants.push(Program { api, files: fs, strict: false });
     }
     variants
+}
+
+// ------------------------------------------------------------------------------------------------
+// generator family: higher-order use of macros
+// ------------------------------------------------------------------------------------------------
+//
+// The name of a function-like macro ("worker": `W1`..`W3`) is passed as an argument to a macro ("combinator": `H1`, `H2`,
+// relay `M1`) whose replacement list invokes it: `#define APPLY(f, x) f(x)` / `APPLY(NEG, a)`, the X-macro idiom
+// `#define LIST(X) X(1) X(2)` / `LIST(DECL)`, `#define CALL(f, args) f args` / `CALL(ADD, (p, q))`, a relay
+// `#define MAP(f, x) APPLY(f, x)`.  Replacement lists of combinators consist of parameters, literals and punctuation --
+// with and without an identifier of their own.  Workers expand to text that names no macro, so no known deviation
+// applies: the programs are judged strictly (request `C12.hof`).
+
+fn generate_higher_order(rng: &mut Rng, hist: &mut Hist) -> Program {
+    fn id(s: &str) -> Tok {
+        Tok::Id(s.to_string())
+    }
+    fn int(n: u64) -> Tok {
+        Tok::Int(n.to_string())
+    }
+    fn punct(s: &str) -> Tok {
+        Tok::P(s.to_string())
+    }
+    let mut lines: Vec<Line> = Vec::new();
+    // workers
+    let nw = 1 + rng.below(3) as usize;
+    let mut arity: Vec<usize> = Vec::new();
+    for w in 0..nw {
+        let ar = if rng.chance(1, 8) { 0 } else { 1 + rng.below(2) as usize };
+        arity.push(ar);
+        let mut t = vec![Tok::Ws, id(&format!("W{}", w + 1)), Tok::LParen];
+        for i in 0..ar {
+            if i > 0 {
+                t.push(Tok::Comma);
+                t.push(Tok::Ws);
+            }
+            t.push(id(PARAM_NAMES[i]));
+        }
+        t.push(Tok::RParen);
+        t.push(Tok::Ws);
+        let x = id(PARAM_NAMES[0]);
+        let y = id(PARAM_NAMES[1]);
+        let body: Vec<Tok> = match (ar, rng.below(5)) {
+            (0, _) => vec![int(7 + w as u64)],
+            (1, 0) => vec![Tok::LParen, punct("-"), Tok::LParen, x, Tok::RParen, Tok::RParen],
+            (1, 1) => vec![id("P"), Tok::Ws, x.clone(), Tok::Ws, punct(";")],
+            (1, 2) => vec![id("Q"), Tok::Ws, Tok::HashHash, Tok::Ws, x, Tok::Ws, punct(";")],
+            (1, 3) => vec![x.clone(), Tok::Ws, punct("*"), Tok::Ws, x],
+            (1, _) => vec![punct("{"), Tok::Ws, x, Tok::Ws, punct("}")],
+            (_, 0) => vec![x, Tok::Ws, punct("+"), Tok::Ws, y],
+            (_, 1) => vec![Tok::LParen, x, Tok::Comma, Tok::Ws, y, Tok::RParen],
+            (_, 2) => vec![id("R"), Tok::Ws, y, Tok::Ws, x],
+            (_, 3) => vec![x, Tok::Ws, punct("="), Tok::Ws, y, punct(";")],
+            (_, _) => vec![y, Tok::Ws, punct("-"), Tok::Ws, int(1), Tok::Ws, x],
+        };
+        t.extend(body);
+        lines.push(Line::Define(t));
+    }
+    // combinators: the first parameter is the function
+    // shape 0: F(V..)   1: F(1) F(2) (unary workers)   2: F V (V receives a parenthesised list)   3: F(F(V)) (unary)
+    // shape 4: relay to another combinator
+    let nh = 1 + rng.below(2) as usize;
+    let mut shapes: Vec<(u64, usize)> = Vec::new(); // (shape, arity of the workers it takes)
+    for h in 0..nh {
+        // the arity it calls its function with is the arity of one of the workers
+        let k = arity[rng.below(nw as u64) as usize];
+        let has_unary = arity.iter().any(|a| *a == 1);
+        let shape = if h > 0 && rng.chance(1, 3) { 4 } else { rng.below(4) };
+        let shape = if matches!(shape, 1 | 3) && !has_unary { 0 } else { shape };
+        let k = match shape {
+            1 | 3 => 1,
+            4 => shapes[0].1,
+            _ => k,
+        };
+        let nvals = match shape {
+            1 => 0,
+            2 => 1,
+            3 => 1,
+            4 => match shapes[0].0 {
+                1 => 0,
+                2 | 3 => 1,
+                _ => k,
+            },
+            _ => k,
+        };
+        shapes.push((shape, k));
+        let f = id("F");
+        let vals: Vec<Tok> = (0..nvals).map(|i| id(PARAM_NAMES[i])).collect();
+        let mut t = vec![Tok::Ws, id(&format!("H{}", h + 1)), Tok::LParen, f.clone()];
+        for v in &vals {
+            t.push(Tok::Comma);
+            t.push(Tok::Ws);
+            t.push(v.clone());
+        }
+        t.push(Tok::RParen);
+        t.push(Tok::Ws);
+        let mut body: Vec<Tok> = Vec::new();
+        match shape {
+            0 => {
+                body.push(f.clone());
+                if rng.chance(1, 4) {
+                    body.push(Tok::Ws);
+                }
+                body.push(Tok::LParen);
+                for (i, v) in vals.iter().enumerate() {
+                    if i > 0 {
+                        body.push(Tok::Comma);
+                        body.push(Tok::Ws);
+                    }
+                    body.push(v.clone());
+                }
+                body.push(Tok::RParen);
+            }
+            1 => {
+                let n = 2 + rng.below(2);
+                for i in 0..n {
+                    if i > 0 {
+                        body.push(Tok::Ws);
+                    }
+                    body.push(f.clone());
+                    body.push(Tok::LParen);
+                    body.push(int(1 + i));
+                    body.push(Tok::RParen);
+                }
+            }
+            2 => {
+                body.push(f.clone());
+                body.push(Tok::Ws);
+                body.push(vals[0].clone());
+            }
+            3 => {
+                body.extend([f.clone(), Tok::LParen, f.clone(), Tok::LParen, vals[0].clone(), Tok::RParen, Tok::RParen]);
+            }
+            _ => {
+                body.push(id("H1"));
+                body.push(Tok::LParen);
+                body.push(f.clone());
+                for v in &vals {
+                    body.push(Tok::Comma);
+                    body.push(Tok::Ws);
+                    body.push(v.clone());
+                }
+                body.push(Tok::RParen);
+            }
+        }
+        // decoration: literals and punctuation; now and then an identifier of the replacement list's own
+        match rng.below(6) {
+            0 => {
+                body.insert(0, Tok::LParen);
+                body.push(Tok::RParen);
+            }
+            1 => {
+                body.push(Tok::Ws);
+                body.push(punct("+"));
+                body.push(Tok::Ws);
+                body.push(int(1));
+            }
+            2 => {
+                body.insert(0, Tok::Ws);
+                body.insert(0, id("R"));
+                hist.add("higher-order:replacement-list-with-an-identifier");
+            }
+            3 => {
+                body.push(punct(";"));
+            }
+            _ => {}
+        }
+        t.extend(body);
+        lines.push(Line::Define(t));
+        hist.add(&format!("higher-order:combinator-shape-{}", shape));
+    }
+    // sites
+    let nsites = 1 + rng.below(4) as usize;
+    for _ in 0..nsites {
+        let h = rng.below(nh as u64) as usize;
+        let (shape, k) = shapes[h];
+        let eff = if shape == 4 { shapes[0].0 } else { shape };
+        // a worker of the arity the combinator calls it with
+        let cands: Vec<usize> = (0..nw).filter(|w| arity[*w] == k).collect();
+        let w = if cands.is_empty() || rng.chance(1, 20) {
+            hist.add("higher-order:worker-of-another-arity");
+            // (never a unary worker on an empty argument list: the argument would be empty, and next to the `##` of the
+            // pasting worker that is the known deviation empty-argument-next-to-paste)
+            let other: Vec<usize> = (0..nw).filter(|w| !(k == 0 && arity[*w] == 1)).collect();
+            if other.is_empty() {
+                continue;
+            }
+            *rng.pick(&other)
+        } else {
+            *rng.pick(&cands)
+        };
+        let mut t = vec![id(&format!("H{}", h + 1))];
+        if rng.chance(1, 6) {
+            t.push(Tok::Ws);
+        }
+        t.push(Tok::LParen);
+        t.push(id(&format!("W{}", w + 1)));
+        let mut val = |rng: &mut Rng, t: &mut Vec<Tok>| match rng.below(4) {
+            0 => t.push(int(rng.below(10))),
+            1 => t.push(id(*rng.pick(PLAIN))),
+            2 => {
+                t.push(id("a"));
+                t.push(Tok::Ws);
+                t.push(punct("*"));
+                t.push(Tok::Ws);
+                t.push(int(2));
+            }
+            _ => {
+                // another invocation whose expansion names no macro: a unary worker on an atom
+                let un: Vec<usize> = (0..nw).filter(|w| arity[*w] == 1).collect();
+                if un.is_empty() {
+                    t.push(id("b"));
+                } else {
+                    t.push(id(&format!("W{}", *rng.pick(&un) + 1)));
+                    t.push(Tok::LParen);
+                    t.push(id("c"));
+                    t.push(Tok::RParen);
+                }
+            }
+        };
+        match eff {
+            1 => {}
+            2 => {
+                t.push(Tok::Comma);
+                t.push(Tok::Ws);
+                t.push(Tok::LParen);
+                for i in 0..k {
+                    if i > 0 {
+                        t.push(Tok::Comma);
+                        t.push(Tok::Ws);
+                    }
+                    val(rng, &mut t);
+                }
+                t.push(Tok::RParen);
+            }
+            3 => {
+                t.push(Tok::Comma);
+                t.push(Tok::Ws);
+                val(rng, &mut t);
+            }
+            _ => {
+                for _ in 0..k {
+                    t.push(Tok::Comma);
+                    t.push(Tok::Ws);
+                    val(rng, &mut t);
+                }
+            }
+        }
+        t.push(Tok::RParen);
+        if rng.chance(1, 3) {
+            t.push(Tok::Ws);
+            t.push(punct(";"));
+        }
+        if rng.chance(1, 10) {
+            if let Some(pos) = t.iter().position(|x| *x == Tok::Comma) {
+                let second = t.split_off(pos + 1);
+                lines.push(Line::Text(t));
+                lines.push(Line::Text(second));
+                continue;
+            }
+        }
+        lines.push(Line::Text(t));
+    }
+    hist.add("higher-order:programs");
+    // the definitions in the file, or the combinators passed through the API
+    let mut api = Vec::new();
+    if rng.chance(1, 4) {
+        let mut keep = Vec::new();
+        for l in lines {
+            match &l {
+                Line::Define(t) if matches!(t.get(1), Some(Tok::Id(n)) if n.starts_with('H')) => {
+                    let end = t.iter().position(|x| *x == Tok::RParen).unwrap_or(1);
+                    api.push((t[1..=end].to_vec(), t.iter().skip(end + 2).cloned().collect()));
+                }
+                _ => keep.push(l),
+            }
+        }
+        lines = keep;
+        hist.add("higher-order:combinators-in-the-api-list");
+    }
+    Program { api, files: vec![File { name: "main".into(), real: "main".into(), lines }], strict: true }
 }
 
 // ------------------------------------------------------------------------------------------------
@@ -1671,32 +2034,8 @@ fn judge(p: &Program, out: &mut Out, hist: &mut Hist) {
     judge_with(p, None, out, hist)
 }
 
-/// `real`: the result of the real preprocessor if it was obtained elsewhere (worker process)
-fn judge_with(p: &Program, real: Option<Real>, out: &mut Out, hist: &mut Hist) {
-    let req = p.encode();
-    if std::env::var("C12_TRACE").is_ok() {
-        eprintln!("TRACE {}", req);
-    }
-    if let Err(why) = program_faithful(p) {
-        hist.add("skip:unfaithful-rendering");
-        out.case(&req, "-", &format!("SKIP:{}", why));
-        return;
-    }
-    // Without persistent paint (deviation `argument-repainted`) some small programs expand to millions of tokens
-    // in the real code (and in the model, which mirrors it): predict that with the reference run in RSSL-like mode
-    // under a small budget and do not run such a program in-process.
-    if real.is_none() && predicted_to_explode(p) {
-        hist.add("not-run:expansion-explodes-without-persistent-paint");
-        if std::env::var("C12_TRACE").is_ok() {
-            eprintln!("EXPLODES {}", req);
-        }
-        return;
-    }
-    let real = match real {
-        Some(r) => r,
-        None => run_real(p),
-    };
-    let obs = match &real {
+fn obs_of(real: &Real) -> String {
+    match real {
         Real::Ok(t) => format!("ok {}", t.join(" ")).trim_end().to_string(),
         Real::Err(e) => format!("err {}", e),
         Real::Panic(m) => {
@@ -1709,10 +2048,14 @@ fn judge_with(p: &Program, real: Option<Real>, out: &mut Out, hist: &mut Hist) {
             let msg = msg.split("\\n").next().unwrap_or("");
             format!("panic {}: {}", file, msg)
         }
-    };
+    }
+}
+
+/// the oracle: the real outcome against the reference C preprocessor
+fn oracle_of(p: &Program, real: &Real, hist: &mut Hist) -> String {
     let mut notes = RefNotes::default();
     let expected = run_reference(p, Dev::default(), &mut notes);
-    let oracle = match (&real, &expected) {
+    let oracle = match (real, &expected) {
         (Real::Panic(m), _) => {
             hist.add("real:panic");
             format!("FAIL:panic {}", m)
@@ -1747,71 +2090,53 @@ fn judge_with(p: &Program, real: Option<Real>, out: &mut Out, hist: &mut Hist) {
                 Ok(e) => format!("ok {}", e.join(" ")),
                 Err(e) => format!("reject {:?}", e),
             };
-            let mut class = "unexplained".to_string();
-            // smallest set of deviations that reproduces the real output
+            // A known deviation class explains a disagreement only by EXACT mimicry: the reference run with the
+            // mimic switches of the named classes (and no others) reproduces the real output token for token (or is
+            // rejected where the real code rejects).  The smallest such set names the class; if no set of the
+            // offered switches reproduces the output the disagreement is `unexplained` (an unlisted finding).
             let mut best: Option<u32> = None;
-            // did the program leave the property's subset once some known deviations are taken?
-            let mut oos_under_deviations = false;
-            'search: for k in 1..=3u32 {
+            'search: for k in 1..=OFFERED.count_ones() {
                 for bits in 1u32..(1 << DEV_NAMES.len()) {
-                    // `paste-in-api-define` (4) and `duplicate-api-define` (32) were fixed in 9f7cdb8,
-                    // `line-end-before-parenthesis` (1) in f08088c, `pragma-once-by-include-name` (64) in d66a6d7: not
-                    // offered as explanations any more (a regression shows up as `unexplained`)
-                    if bits.count_ones() != k || bits & (1 | 4 | 32 | 64) != 0 {
+                    if bits.count_ones() != k || bits & !OFFERED != 0 {
                         continue;
                     }
                     let mut n2 = RefNotes::default();
                     let alt = run_reference(p, Dev::from_bits(bits), &mut n2);
-                    if !n2.out_of_subset.is_empty() {
-                        oos_under_deviations = true;
-                    }
-                    let same = match (&real, &alt) {
-                        (Real::Ok(t), Ok(e)) => t == e,
-                        (Real::Err(_), Err(_)) => true,
-                        _ => false,
-                    };
-                    if same {
+                    if same_outcome(real, &alt) {
                         best = Some(bits);
                         break 'search;
                     }
                 }
             }
-            // an unused argument that RSSL expands anyway may itself need a placemarker / meet a painted name
-            let mut ne = RefNotes::default();
-            let _ = run_reference(p, Dev::from_bits(8), &mut ne);
-            if let Some(b) = best {
-                class = Dev::names(b);
-            } else if notes.painted_call || ne.painted_call {
-                // C never expands a painted name again; RSSL only remembers the macro it applied last
-                // (`last_macro_function_index`) and re-enables everything else once a body has been rescanned
-                class = if notes.painted_call {
-                    "painted-function-name-reinvoked".to_string()
-                } else {
-                    format!("{}+painted-function-name-reinvoked", DEV_NAMES[3])
-                };
-            } else if !notes.used_placemarker && ne.used_placemarker {
-                class = format!("{}+{}", DEV_NAMES[1], DEV_NAMES[3]);
-            } else if false {
-                // C never expands a painted name again; RSSL only remembers the macro it applied last
-                // (`last_macro_function_index`) and re-enables everything else once a body has been rescanned
-                class = "painted-function-name-reinvoked".to_string();
-            } else if notes.used_placemarker {
-                // C needed a placemarker here; RSSL has none and pastes (or expands) whatever is adjacent, in
-                // the order of its rescan, which the switch above reproduces only for the simple shapes
-                class = DEV_NAMES[1].to_string();
-            }
-            let mut na = class == "unexplained" && oos_under_deviations;
-            if class == "unexplained" && !na {
-                // an unused argument that RSSL expands anyway may itself lie outside the subset
-                for i in 0..DEV_NAMES.len() {
+            // The oracle does not apply when RSSL itself leaves the property's subset on this program: RSSL expands
+            // every argument (also an unused one, also one that stands next to `##`), so a `##` operand that holds a
+            // macro name -- outside the subset -- may be met only on RSSL's path.  Judged on the reference run with
+            // the argument expansion of RSSL alone, and with every offered switch on (the closest rendering of RSSL's path).
+            let mut na = false;
+            if best.is_none() {
+                for bits in [8u32, OFFERED] {
                     let mut n2 = RefNotes::default();
-                    let _ = run_reference(p, Dev::from_bits(1 << i), &mut n2);
+                    let _ = run_reference(p, Dev::from_bits(bits), &mut n2);
                     if !n2.out_of_subset.is_empty() {
                         na = true;
                     }
                 }
             }
-            if na {
+            let class = match best {
+                Some(b) => Dev::names(b),
+                None => "unexplained".to_string(),
+            };
+            if best.is_some() {
+                hist.add("classified-by-exact-mimicry");
+            }
+            if std::env::var("C12_WHY").is_ok() && best.is_none() {
+                eprintln!("UNCLASSIFIED {} {}", if na { "not-applicable" } else { "unexplained" }, p.encode());
+            }
+            if p.strict {
+                // the higher-order family: RSSL equals C on these programs; a difference fails under a key of its own
+                hist.add(&format!("higher-order:differs-from-C({})", class));
+                format!("FAIL:higher-order-differs-from-C ({}) expected {}", class, exp_s)
+            } else if na {
                 hist.add("oracle-not-applicable:outside-the-subset-once-a-known-deviation-is-taken");
                 "ok".to_string()
             } else {
@@ -1820,6 +2145,212 @@ fn judge_with(p: &Program, real: Option<Real>, out: &mut Out, hist: &mut Hist) {
             }
         }
     };
+    oracle
+}
+
+/// the real preprocessor on one program, in a worker process under a time and memory limit
+fn run_real_in_worker(p: &Program) -> Option<Real> {
+    if program_faithful(p).is_err() || predicted_to_explode(p) {
+        return None;
+    }
+    let exe = std::env::current_exe().ok()?.display().to_string();
+    let tmp = std::env::temp_dir().join(format!("c12-one-{}.txt", std::process::id()));
+    std::fs::write(&tmp, p.encode() + "\n").ok()?;
+    let res = std::process::Command::new("sh")
+        .arg("-c")
+        .arg(format!("ulimit -v 3000000; exec timeout 4 {} c12 --requests {}", exe, tmp.display()))
+        .env("C12_WORKER", "1")
+        .stderr(std::process::Stdio::null())
+        .output();
+    let _ = std::fs::remove_file(&tmp);
+    let text = String::from_utf8_lossy(&res.ok()?.stdout).to_string();
+    text.lines().find_map(decode_real)
+}
+
+/// parentheses balanced in every `#define` line and over every run of text lines (a smaller program that is not is
+/// another kind of program: an argument list that begins in a replacement list and ends behind it)
+fn parens_balanced(p: &Program) -> bool {
+    fn step(d: &mut i32, t: &Tok) -> bool {
+        match t {
+            Tok::LParen => *d += 1,
+            Tok::RParen => *d -= 1,
+            _ => {}
+        }
+        *d >= 0
+    }
+    for (n, v) in &p.api {
+        let mut d = 0;
+        if !n.iter().chain(v.iter()).all(|t| step(&mut d, t)) || d != 0 {
+            return false;
+        }
+    }
+    for f in &p.files {
+        let mut run = 0;
+        for l in &f.lines {
+            match l {
+                Line::Text(t) => {
+                    if !t.iter().all(|x| step(&mut run, x)) {
+                        return false;
+                    }
+                }
+                Line::Define(t) => {
+                    let mut d = 0;
+                    if run != 0 || !t.iter().all(|x| step(&mut d, x)) || d != 0 {
+                        return false;
+                    }
+                }
+                _ => {
+                    if run != 0 {
+                        return false;
+                    }
+                }
+            }
+        }
+        if run != 0 {
+            return false;
+        }
+    }
+    true
+}
+
+/// greedy shrinking of a program whose difference from C no known deviation reproduces (at most three programs per run)
+fn shrink_unexplained(p: &Program, hist: &mut Hist) -> Option<Program> {
+    use std::sync::atomic::{AtomicU32, Ordering};
+    static DONE: AtomicU32 = AtomicU32::new(0);
+    if DONE.fetch_add(1, Ordering::SeqCst) >= 3 {
+        return None;
+    }
+    hist.add("unexplained:shrunk-in-harness");
+    let still = |q: &Program| -> bool {
+        if q.files.is_empty() || !parens_balanced(q) {
+            return false;
+        }
+        match run_real_in_worker(q) {
+            Some(r) => oracle_of(q, &r, &mut Hist::default()).starts_with("FAIL:differs-from-C[unexplained]"),
+            None => false,
+        }
+    };
+    let mut cur = p.clone();
+    let mut budget = 4000;
+    let mut improved = true;
+    while improved && budget > 0 {
+        improved = false;
+        let mut cands: Vec<Program> = Vec::new();
+        // drop an API define, the last file, a line, a token
+        for i in 0..cur.api.len() {
+            let mut q = cur.clone();
+            q.api.remove(i);
+            cands.push(q);
+        }
+        if cur.files.len() > 1 {
+            let mut q = cur.clone();
+            q.files.pop();
+            cands.push(q);
+        }
+        for fi in 0..cur.files.len() {
+            for li in 0..cur.files[fi].lines.len() {
+                let mut q = cur.clone();
+                q.files[fi].lines.remove(li);
+                cands.push(q);
+            }
+        }
+        for fi in 0..cur.files.len() {
+            for li in 0..cur.files[fi].lines.len() {
+                if let Line::Define(t) | Line::Text(t) = &cur.files[fi].lines[li] {
+                    // a parenthesised group at once, then single tokens
+                    for ti in 0..t.len() {
+                        if t[ti] == Tok::LParen {
+                            let mut d = 0;
+                            for tj in ti..t.len() {
+                                match t[tj] {
+                                    Tok::LParen => d += 1,
+                                    Tok::RParen => d -= 1,
+                                    _ => {}
+                                }
+                                if d == 0 {
+                                    let mut t2 = t.clone();
+                                    t2.drain(ti..=tj);
+                                    let mut q = cur.clone();
+                                    q.files[fi].lines[li] = match &cur.files[fi].lines[li] {
+                                        Line::Define(_) => Line::Define(t2),
+                                        _ => Line::Text(t2),
+                                    };
+                                    cands.push(q);
+                                    break;
+                                }
+                            }
+                        }
+                    }
+                    for ti in 0..t.len() {
+                        if matches!(t[ti], Tok::LParen | Tok::RParen) {
+                            continue;
+                        }
+                        let mut t2 = t.clone();
+                        t2.remove(ti);
+                        let mut q = cur.clone();
+                        q.files[fi].lines[li] = match &cur.files[fi].lines[li] {
+                            Line::Define(_) => Line::Define(t2),
+                            _ => Line::Text(t2),
+                        };
+                        cands.push(q);
+                    }
+                }
+            }
+        }
+        for q in cands {
+            budget -= 1;
+            if budget <= 0 {
+                break;
+            }
+            if still(&q) {
+                cur = q;
+                improved = true;
+                break;
+            }
+        }
+    }
+    Some(cur)
+}
+
+/// `real`: the result of the real preprocessor if it was obtained elsewhere (worker process)
+fn judge_with(p: &Program, real: Option<Real>, out: &mut Out, hist: &mut Hist) {
+    let req = p.encode();
+    if std::env::var("C12_TRACE").is_ok() {
+        eprintln!("TRACE {}", req);
+    }
+    if let Err(why) = program_faithful(p) {
+        hist.add("skip:unfaithful-rendering");
+        out.case(&req, "-", &format!("SKIP:{}", why));
+        return;
+    }
+    // Without persistent paint (deviation `argument-repainted`) some small programs expand to millions of tokens
+    // in the real code (and in the model, which mirrors it): predict that with the reference run in RSSL-like mode
+    // under a small budget and do not run such a program in-process.
+    if real.is_none() && predicted_to_explode(p) {
+        hist.add("not-run:expansion-explodes-without-persistent-paint");
+        if std::env::var("C12_TRACE").is_ok() {
+            eprintln!("EXPLODES {}", req);
+        }
+        return;
+    }
+    let real = match real {
+        Some(r) => r,
+        None => run_real(p),
+    };
+    let obs = obs_of(&real);
+    let oracle = oracle_of(p, &real, hist);
+    if oracle.starts_with("FAIL:differs-from-C[unexplained]") {
+        // a difference from C that no known deviation reproduces: report the smallest program we can find with it first
+        // (the first failing input of a finding key is the one the check reports)
+        if let Some(small) = shrink_unexplained(p, hist).filter(|q| q.encode() != p.encode()) {
+            if let Some(r) = run_real_in_worker(&small) {
+                let o2 = oracle_of(&small, &r, &mut Hist::default());
+                if o2.starts_with("FAIL:differs-from-C[unexplained]") {
+                    out.case(&small.encode(), &obs_of(&r), &o2);
+                }
+            }
+        }
+    }
     match &real {
         Real::Ok(t) => hist.add(&format!("real:ok-tokens-{}", (t.len() / 5 * 5).min(40))),
         Real::Err(e) => hist.add(&format!("real:err-{}", e.split('(').next().unwrap_or(""))),
@@ -2092,6 +2623,15 @@ pub fn run(args: &Args, out: &mut Out) {
             }
             all.push(p);
         }
+    }
+    // the higher-order family (judged strictly)
+    for _ in 0..(n / 5).max(50) {
+        let p = generate_higher_order(&mut rng, &mut hist);
+        if program_faithful(&p).is_ok() && predicted_to_explode(&p) {
+            hist.add("not-run:expansion-explodes-without-persistent-paint");
+            continue;
+        }
+        all.push(p);
     }
     let programs = all.len() as u64;
     run_batch(&all, out, &mut hist);
